@@ -618,3 +618,19 @@ package vegeta
 //@     invariant held(&mu) && tgt != nil && tgt == old(tgt) && sc.src == old(sc.src) && sc.src != nil && tgt.Header != nil && fresh(tgt.Header)
 //@     invariant forall k string :: cap(tgt.Header[k]) > 0 ==> fresh(tgt.Header[k])
 //@     decreases len(tokens) - rangeindex
+
+// ReadAllTargets: every target the targeter produced is appended once, in order; the element
+// storage is fresh, so a later decode (which may only write *tgt: Targeter type contract) cannot
+// change a target appended earlier.
+//@ func ReadAllTargets
+//@   property C14
+//@   returns (tgts, err)
+//@   requires [targeter-non-nil] t != nil
+//@   requires [package-initialised] ErrNoTargets != nil
+//@   modifies nothing
+//@   ghost decoded int
+//@   at call t: ghost decoded = decoded + (result == nil ? 1 : 0)
+//@   ensures [all-or-error] err == nil ==> len(tgts) == decoded && decoded >= 1 && fresh(tgts)
+//@   ensures [no-targets-is-an-error] err == nil || tgts == nil
+//@   loop 1
+//@     invariant len(tgts) == decoded && (cap(tgts) > 0 ==> fresh(tgts)) && t == old(t)
